@@ -5,6 +5,16 @@ CONSTANTS Types,      \* set of <<kind, n>>: kind \in {"u","i","b","a"}, n = key
           MaxSet      \* largest key set
 TypesQuick == { <<"u",1>>, <<"u",2>>, <<"u",8>>, <<"u",9>>, <<"u",16>>, <<"u",32>>, <<"u",64>>, <<"i",8>>, <<"i",32>>, <<"i",64>>, <<"b",256>> }
 TypesAll == TypesQuick \cup { <<"u",15>>, <<"i",16>>, <<"b",80>>, <<"b",96>>, <<"b",264>>, <<"b",512>>, <<"a",288>> }
+\* key types beyond the ones the library itself instantiates dictionaries with: a sample of the other generated integer / bits
+\* types (every one of them is key-capable: KeyOps.tla), of varied widths incl. 3, 7 (below a byte), 24, 48 (whole bytes), 33, 63
+TypesNewQuick == { <<"u",3>>, <<"i",7>>, <<"u",33>>, <<"i",63>>, <<"b",128>> }
+TypesNew == TypesNewQuick \cup { <<"u",7>>, <<"u",24>>, <<"u",48>>, <<"u",63>>, <<"i",3>>, <<"i",24>>, <<"i",33>>, <<"b",320>>, <<"b",352>> }
+TypesQuickF == TypesQuick \cup TypesNewQuick       \* Dict_Gen, quick
+TypesAllF == TypesAll \cup TypesNew                \* Dict_Gen, full
+\* foreign dictionaries (Dict_GenF): label forms are read before the key type comes into play (it only decodes the leaf's
+\* key bits), so a smaller sample of the additional types takes part there
+TypesQuickFF == TypesQuick \cup { <<"i",7>>, <<"u",33>>, <<"b",128>> }
+TypesAllFF == TypesAll \cup TypesNewQuick
 Alt(n, s) == [i \in 1..n |-> (i + s) % 2]
 Z(n) == [i \in 1..n |-> 0]
 O(n) == [i \in 1..n |-> 1]
